@@ -100,6 +100,73 @@ pub fn paragraph_xml(p: &str, mode: u8, st: AttrStyle) -> String {
     out
 }
 
+/// Legal spellings of a repeat count `k` in an attribute value. 0: `k`; 1: `+k`; 2: `00k`; 3 / 4: the first digit as
+/// a decimal / hexadecimal character reference (`&#51;`, `&#x33;`); 5 / 6: a blank before / after (legal for an
+/// xsd:positiveInteger, whose white space is collapsed). The result is attribute-value text (already escaped).
+pub fn spell_count(k: usize, spelling: u8) -> String {
+    let d = k.to_string();
+    match spelling {
+        1 => format!("+{d}"),
+        2 => format!("00{d}"),
+        3 => format!("&#{};{}", d.as_bytes()[0], &d[1..]),
+        4 => format!("&#x{:x};{}", d.as_bytes()[0], &d[1..]),
+        5 => format!(" {d}"),
+        6 => format!("{d} "),
+        _ => d,
+    }
+}
+
+/// the foreign-namespace twin `x:local` of an attribute `prefix:local`
+fn twin_name(name: &str) -> String {
+    format!("x:{}", name.split_once(':').map(|p| p.1).unwrap_or(name))
+}
+
+/// add, for every attribute, a twin with the same local name in a foreign namespace and another value:
+/// `mode` bit 1 = before the real attributes, bit 2 = after them
+fn add_twins(attrs: &mut Vec<(String, String)>, mode: u8) {
+    let other = |name: &str, v: &str| -> String {
+        match name.split_once(':').map(|p| p.1).unwrap_or(name) {
+            "number-columns-repeated" | "number-rows-repeated" | "number-columns-spanned" | "number-rows-spanned" => "7".into(),
+            "value-type" => if v == "string" { "float".into() } else { "string".into() },
+            "value" => "99.5".into(),
+            "string-value" => "TWIN".into(),
+            "boolean-value" => if v == "true" { "false".into() } else { "true".into() },
+            "date-value" => "1999-01-01".into(),
+            "time-value" => "PT9H".into(),
+            "formula" => "of:=TWIN()".into(),
+            "name" => "TWIN".into(),
+            "c" => "7".into(),
+            _ => "twin".into(),
+        }
+    };
+    let twins: Vec<(String, String)> = attrs.iter().map(|(k, v)| (twin_name(k), other(k, v))).collect();
+    let mut out = vec![];
+    if mode & 1 != 0 {
+        out.extend(twins.iter().cloned());
+    }
+    out.append(attrs);
+    if mode & 2 != 0 {
+        if mode & 1 != 0 {
+            // a second foreign prefix, so that no attribute name occurs twice
+            out.extend(twins.iter().map(|(k, v)| (k.replacen("x:", "loext:", 1), v.clone())));
+        } else {
+            out.extend(twins);
+        }
+    }
+    *attrs = out;
+}
+
+/// A table nested in a cell: `kind` 1 = a sub-table (`table:is-sub-table="true"`), 2 = a table inside a `draw:frame`.
+/// It holds cells, rows and columns of its own, none of which belongs to the sheet.
+pub fn nested_table_xml(kind: u8) -> String {
+    let t = "<table:table-column table:number-columns-repeated=\"2\"/><table:table-row table:number-rows-repeated=\"2\"><table:table-cell office:value-type=\"float\" office:value=\"5\"><text:p>5</text:p></table:table-cell><table:table-cell table:number-columns-repeated=\"3\"/><table:covered-table-cell office:value-type=\"string\"><text:p>inner</text:p></table:covered-table-cell></table:table-row><table:table-row><table:table-cell/></table:table-row>";
+    match kind {
+        1 => format!("<table:table table:name=\"sub\" table:is-sub-table=\"true\">{t}</table:table>"),
+        2 => format!("<draw:frame draw:name=\"fr\" svg:width=\"2cm\" svg:height=\"1cm\"><table:table table:name=\"framed\">{t}</table:table></draw:frame>"),
+        _ => String::new(),
+    }
+}
+
 /// What a cell stores (its `office:value-type` and value attribute / `text:p` content).
 #[derive(Clone, Debug, PartialEq)]
 pub enum OdsVal {
@@ -172,11 +239,19 @@ pub struct OdsCell {
     pub attr_style: AttrStyle,
     /// `Str` only: how blanks are written, see `paragraph_xml` (0 = as characters)
     pub text_s: u8,
+    /// spelling of the repeat count, see `spell_count` (0 = plain digits)
+    pub repeat_spelling: u8,
+    /// a table nested in the cell, see `nested_table_xml` (0 = none). Only meaningful for cells whose value is in
+    /// their attributes (or blank cells): the content of such a cell is skipped by a reader
+    pub nested: u8,
+    /// foreign-namespace twins (`x:value-type`, `x:number-columns-repeated`, …, with other values) of every attribute:
+    /// bit 1 = before the real attributes, bit 2 = after them
+    pub twins: u8,
 }
 
 impl OdsCell {
     pub fn new(val: OdsVal) -> OdsCell {
-        OdsCell { val, formula: None, repeat: None, covered: false, display: None, span: None, self_closing: true, raw: None, annotation: None, extra_attrs: String::new(), empty_paragraph: true, attr_style: AttrStyle::default(), text_s: 0 }
+        OdsCell { val, formula: None, repeat: None, covered: false, display: None, span: None, self_closing: true, raw: None, annotation: None, extra_attrs: String::new(), empty_paragraph: true, attr_style: AttrStyle::default(), text_s: 0, repeat_spelling: 0, nested: 0, twins: 0 }
     }
     pub fn empty() -> OdsCell {
         OdsCell::new(OdsVal::Empty)
@@ -229,7 +304,7 @@ impl OdsCell {
         let mut attrs: Vec<(String, String)> = vec![];
         let mut at = |k: &str, v: String| attrs.push((k.to_string(), v));
         if let Some(k) = self.repeat {
-            at("table:number-columns-repeated", k.to_string());
+            at("table:number-columns-repeated", spell_count(k, self.repeat_spelling));
         }
         if let Some((r, c)) = self.span {
             at("table:number-columns-spanned", c.to_string());
@@ -285,7 +360,21 @@ impl OdsCell {
                 at("office:time-value", escape_attr(s));
             }
         }
+        if self.twins != 0 {
+            if attrs.is_empty() {
+                // a blank cell: twins of the attributes a value cell would carry
+                attrs.push(("office:value-type".into(), "void".into()));
+                attrs.push(("office:value".into(), "0".into()));
+                add_twins(&mut attrs, self.twins);
+                attrs.retain(|(k, _)| !k.starts_with("office:"));
+            } else {
+                add_twins(&mut attrs, self.twins);
+            }
+        }
         write_attrs(out, &attrs, self.attr_style);
+        if !matches!(self.val, OdsVal::Str(_)) {
+            body.push_str(&nested_table_xml(self.nested));
+        }
         if !matches!(self.val, OdsVal::Str(_)) {
             if let Some(d) = &self.display {
                 body.push_str("<text:p>");
@@ -326,6 +415,10 @@ pub struct RowRun {
     pub self_closing: bool,
     /// spelling of the element's attributes (quotes, white space, order)
     pub attr_style: AttrStyle,
+    /// spelling of the repeat count, see `spell_count`
+    pub repeat_spelling: u8,
+    /// foreign-namespace twins of the row's attributes (bit 1 before, bit 2 after)
+    pub twins: u8,
 }
 
 /// Elements of ODF 1.2 that merely group rows (none of them changes any cell position)
@@ -351,7 +444,7 @@ impl RowWrap {
 
 impl RowRun {
     pub fn new(cells: Vec<OdsCell>) -> RowRun {
-        RowRun { repeat: None, cells, open: vec![], close: 0, visibility: None, soft_break_before: false, extra_attrs: String::new(), self_closing: false, attr_style: AttrStyle::default() }
+        RowRun { repeat: None, cells, open: vec![], close: 0, visibility: None, soft_break_before: false, extra_attrs: String::new(), self_closing: false, attr_style: AttrStyle::default(), repeat_spelling: 0, twins: 0 }
     }
     pub fn times(mut self, k: usize) -> RowRun {
         self.repeat = Some(k);
@@ -372,7 +465,10 @@ impl RowRun {
             attrs.push(("table:visibility".into(), escape_attr(v)));
         }
         if let Some(k) = self.repeat {
-            attrs.push(("table:number-rows-repeated".into(), k.to_string()));
+            attrs.push(("table:number-rows-repeated".into(), spell_count(k, self.repeat_spelling)));
+        }
+        if self.twins != 0 {
+            add_twins(&mut attrs, self.twins);
         }
         write_attrs(out, &attrs, self.attr_style);
         if self.cells.is_empty() && self.self_closing {
@@ -409,6 +505,8 @@ pub struct OdsSheet {
     pub self_closing: bool,
     /// spelling of the `table:table` element's attributes (`table:name`, `table:style-name`)
     pub attr_style: AttrStyle,
+    /// foreign-namespace twins (`x:name="TWIN"` …) of the table's attributes (bit 1 before, bit 2 after)
+    pub twins: u8,
 }
 
 /// Column declarations for `n` columns in one of the legal ODF shapes; `shape` is taken modulo the number of
@@ -458,7 +556,7 @@ pub type Grid = BTreeMap<(u64, u64), (Data, String)>;
 
 impl OdsSheet {
     pub fn new(name: &str, rows: Vec<RowRun>) -> OdsSheet {
-        OdsSheet { name: name.to_string(), rows, display: None, columns_decl: None, prelude: String::new(), postlude: String::new(), extra_attrs: String::new(), self_closing: false, attr_style: AttrStyle::default() }
+        OdsSheet { name: name.to_string(), rows, display: None, columns_decl: None, prelude: String::new(), postlude: String::new(), extra_attrs: String::new(), self_closing: false, attr_style: AttrStyle::default(), twins: 0 }
     }
     /// Semantic expansion of the runs. Blank runs are skipped without being enumerated, so huge blank
     /// repeats are cheap; a repeated non-blank row/cell is enumerated.
@@ -510,7 +608,9 @@ xmlns:svg=\"urn:oasis:names:tc:opendocument:xmlns:svg-compatible:1.0\" \
 xmlns:form=\"urn:oasis:names:tc:opendocument:xmlns:form:1.0\" \
 xmlns:dc=\"http://purl.org/dc/elements/1.1/\" \
 xmlns:xlink=\"http://www.w3.org/1999/xlink\" \
-xmlns:calcext=\"urn:org:documentfoundation:names:experimental:calc:xmlns:calcext:1.0\"";
+xmlns:calcext=\"urn:org:documentfoundation:names:experimental:calc:xmlns:calcext:1.0\" \
+xmlns:loext=\"urn:org:documentfoundation:names:experimental:office:xmlns:loext:1.0\" \
+xmlns:x=\"urn:example:foreign-namespace\"";
 
 pub const MIMETYPE: &str = "application/vnd.oasis.opendocument.spreadsheet";
 
@@ -538,6 +638,9 @@ impl OdsBook {
             let mut attrs: Vec<(String, String)> = vec![("table:name".into(), escape_attr(&s.name))];
             if s.display.is_some() {
                 attrs.push(("table:style-name".into(), format!("ta{}", i + 1)));
+            }
+            if s.twins != 0 {
+                add_twins(&mut attrs, s.twins);
             }
             write_attrs(&mut x, &attrs, s.attr_style);
             x.push_str(&s.extra_attrs);
@@ -737,6 +840,42 @@ mod tests {
             assert_eq!(r.get_value((4, 4)), Some(&Data::Float(1.5)));
             assert_eq!(r.get_value((3, 5)), Some(&Data::String(long.clone())), "style {code}: {}", book.content_xml());
             assert_eq!(ods.worksheet_formula("S'1").unwrap().get_value((3, 3)), Some(&"of:=1<2".to_string()));
+        }
+    }
+
+    #[test]
+    fn twins_nested_tables_count_spellings() {
+        for (sp, tw, ne) in [(1u8, 1u8, 1u8), (2, 2, 2), (0, 3, 1), (1, 3, 2)] {
+            let mut blank = OdsCell::empty_run(3);
+            blank.repeat_spelling = sp;
+            blank.twins = tw;
+            blank.nested = ne;
+            let mut f = OdsCell::float(1.5).times(2).with_formula("of:=1");
+            f.repeat_spelling = sp;
+            f.twins = tw;
+            f.nested = ne;
+            let mut b = OdsCell::boolean(true);
+            b.twins = tw;
+            b.nested = ne;
+            let mut t = OdsCell::string("txt");
+            t.twins = tw;
+            let mut row = RowRun::new(vec![blank, f, b, t]).times(2);
+            row.repeat_spelling = sp;
+            row.twins = tw;
+            let mut lead = RowRun::new(vec![]).times(4);
+            lead.repeat_spelling = 3; // rows: a character reference is unescaped
+            let mut sheet = OdsSheet::new("S", vec![lead, row, RowRun::new(vec![OdsCell::float(2.0)])]);
+            sheet.twins = tw;
+            let book = OdsBook::new(vec![sheet]);
+            let mut ods: Ods<_> = Ods::new(Cursor::new(book.to_bytes())).unwrap_or_else(|e| panic!("open: {e:?}\n{}", book.content_xml()));
+            assert_eq!(ods.sheet_names(), vec!["S".to_string()]);
+            let r = ods.worksheet_range("S").unwrap();
+            assert_eq!((r.start(), r.end()), (Some((4, 0)), Some((6, 6))), "{}", book.content_xml());
+            assert_eq!(r.get_value((5, 4)), Some(&Data::Float(1.5)));
+            assert_eq!(r.get_value((5, 5)), Some(&Data::Bool(true)));
+            assert_eq!(r.get_value((4, 6)), Some(&Data::String("txt".into())));
+            assert_eq!(r.get_value((6, 0)), Some(&Data::Float(2.0)));
+            assert_eq!(ods.worksheet_formula("S").unwrap().get_value((4, 3)), Some(&"of:=1".to_string()));
         }
     }
 
